@@ -57,10 +57,10 @@ Definition check_classify (w : width) (n : Z) : bool :=
 
 Definition zrange (lo : Z) (len : nat) : list Z := map (fun i => lo + Z.of_nat i) (seq 0 len).
 
-Lemma int8_classify_exhaustive : forallb (check_classify W8) (zrange (-128) 256) = true.
+Lemma int8_classify_exhaustive : forallb (check_classify W8) (zrange (-128) (Z.to_nat 256)) = true.
 Proof. vm_compute. reflexivity. Qed.
 
-Lemma int16_classify_exhaustive : forallb (check_classify W16) (zrange (-32768) 65536) = true.
+Lemma int16_classify_exhaustive : forallb (check_classify W16) (zrange (-32768) (Z.to_nat 65536)) = true.
 Proof. vm_compute. reflexivity. Qed.
 
 Lemma in_zrange : forall lo len n, lo <= n < lo + Z.of_nat len -> In n (zrange lo len).
